@@ -171,6 +171,17 @@ def gen_cases(rng, tier):
                     {"op": "set_value", "name": pp_["name"], "value": rand_value(rng, pp_, curN)},
                     {"op": "set_value", "name": pp_["name"], "value": v1}, {"op": "sample"}]
             ops = ops + scen
+        if i % 5 == 4 and not any(o["op"] == "method" for o in ops):
+            # scenario family: values given to a concatenation of parameters on the transcribed OCP must survive the
+            # re-transcription an invalidating edit causes
+            from .c09 import concat_event
+            ce = concat_event(rng, spec, curN)
+            if ce:
+                cid += 1
+                ops = ops + [{"op": "sample"}, dict(ce, op="set_value"),
+                             {"op": "subject_to", "constraint": ocpgen.gen_constraint(rng, spec, cid, grids=["control"],
+                                                                                      allow_offsets=False)},
+                             {"op": rng.choice(["sample", "solve"])}]
         if spec["T"]["kind"] == "param" and i % 3 == 0:
             # scenario family: a guess written in terms of the horizon (not of ocp.t), horizon parameter changed later
             tg2 = [s_ for s_ in spec["controls"] if s_["shape"][1] == 1]
